@@ -578,6 +578,44 @@ def r_index_access(ck: Checker) -> None:
     ck.need(n >= 40, f"constant-index reads found ({n})")
 
 
+def r_attr_keys(ck: Checker) -> None:
+    """networkx node attributes are plain dicts: `nodes[v]["aggr"] += 1` / a read of `nodes[v]["aggr"]` needs the key,
+    i.e. the test `"aggr" in nodes[v]` on the way (a node that entered the graph through add_edges_from has no attribute)"""
+    n = 0
+    for func in ck.prg.funcs.values():
+        if isinstance(func.node, ast.Lambda):
+            continue
+        subs = [x for x in find_nodes(func.node, lambda x: isinstance(x, ast.Subscript) and isinstance(x.slice, ast.Constant) and isinstance(x.slice.value, str)
+                                      and isinstance(x.value, ast.Subscript) and isinstance(x.value.value, ast.Attribute) and x.value.value.attr == "nodes")]
+        if not subs:
+            continue
+        it = ck.interp(func)
+        stores = {id(t) for a in find_nodes(func.node, lambda a: isinstance(a, ast.Assign)) for t in a.targets}  # type: ignore[attr-defined]
+        for sub_ in subs:
+            if id(sub_) in stores:
+                continue  # a plain store creates the key
+            n += 1
+            key = sub_.slice.value  # type: ignore[attr-defined]
+            cond = f"'{key}' in {unparse(sub_.value)}"
+            holder = next((a for a in find_nodes(func.node, lambda a: isinstance(a, ast.IfExp)) if any(x is sub_ for x in ast.walk(a.body))), None)  # type: ignore[attr-defined]
+            at = enclosing_stmt(func, sub_)
+            ok = it.reachable(at) and it.holds(at, cond)
+            if not ok and holder is not None:
+                ok = same(unparse(holder.test), cond)
+            if not ok:
+                # a node that is known to be in the graph, and every add_node on a graph of that name sets the attribute
+                gname = unparse(sub_.value.value.value)  # type: ignore[attr-defined]
+                member = f"{unparse(sub_.value.slice)} in {unparse(sub_.value.value)}"  # type: ignore[attr-defined]
+                adds = [c for f2 in ck.prg.funcs.values() if f2.module is func.module and not isinstance(f2.node, ast.Lambda) for c in ast.walk(f2.node)
+                        if isinstance(c, ast.Call) and isinstance(c.func, ast.Attribute) and c.func.attr == "add_node" and unparse(c.func.value) == gname]
+                edges = [c for f2 in ck.prg.funcs.values() if f2.module is func.module and not isinstance(f2.node, ast.Lambda) for c in ast.walk(f2.node)
+                         if isinstance(c, ast.Call) and isinstance(c.func, ast.Attribute) and c.func.attr in ("add_edge", "add_edges_from", "add_nodes_from") and unparse(c.func.value) == gname]
+                ok = it.holds(at, member) and bool(adds) and not edges and all(any(k.arg == key for k in c.keywords) for c in adds)
+            ck.add(f"node attribute `{key}` is read only where the node has it", ok, func, sub_, f"`{short(unparse(sub_), 60)}` dominated by `{cond}`: {ok}",
+                   "KeyError: variables of comparison literals enter the graph through add_edges_from without attributes; optimize aborts when such a variable is met again as an aggregate variable", rule="C03.THROW.key")
+    ck.need(n >= 2, f"reads of networkx node attributes found ({n})")
+
+
 def r_domain_calls(ck: Checker) -> None:
     """create_domain / create_next_pred_for_annotated_pred / domain_predicate are only called for predicates that have a domain"""
     DP = "ngo.dependency:DomainPredicates"
@@ -803,6 +841,7 @@ RULES = [
     Rule("C03.THROW.domain", P, r_domain_calls),
     Rule("C03.THROW.symbol", P, r_symbol_access),
     Rule("C03.THROW.index", P, r_index_access),
+    Rule("C03.THROW.key", P, r_attr_keys),
     Rule("C03.THROW.containment", P, r_containment),
     Rule("C03.MYPY", P, r_mypy),
     Rule("C03.LOOP", P, r_loops),
